@@ -1449,6 +1449,9 @@ impl<T> Mailbox<T> {
             if n > 1 << 22 {
                 // idle for a long time (another mode is running): stop burning a core
                 std::thread::sleep(std::time::Duration::from_micros(200));
+            } else if n > 1 << 12 {
+                // fewer cores than threads: let the thread we are waiting for run
+                std::thread::yield_now();
             }
         }
         self.full.store(false, Ordering::Relaxed);
